@@ -89,6 +89,7 @@ def _check_own(ctx):
     prog = ctx.prog
     from . import vu64dec
     vu64dec.check_vu64_decoder(ctx, prog)
+    vu64dec.check_skip_helpers(ctx, prog)
     check_slot_end_exprs(ctx, prog)
     R = Roles(prog)
     n_fields = 0
